@@ -1,3 +1,4 @@
+import Heathcliff.Proofs.C01O
 import Heathcliff.Proofs.C04M
 
 /- Property theorems only (statements verbatim; proofs are the helper lemmas of Heathcliff/Proofs). -/
@@ -56,5 +57,34 @@ theorem eltsAll_contains_le : type_of% @HC.eltsAll_contains_le := @HC.eltsAll_co
 
 /-- non-vacuity: N = 8: step 1 ↦ 3, step −1 ↦ 3^3 = 27 ≡ 11 (mod 16) -/
 example : eltFromStep 3 1 = .ok 3 ∧ eltFromStep 3 (-1) = .ok 11 := by decide
+
+
+/-! ### key switching (the algebra every rotation / relinearisation / key switch rests on) -/
+
+/-- each gadget element (Q/q_j)·[(Q/q_j)^{-1}]_{q_j} is ≡ 1 modulo its own prime and ≡ 0 modulo the others — which is why the key
+    generator adds P·s' only to component j of key j -/
+theorem gadget_delta {b : RNSBase} (hb : b.WF) {i j : Nat} (hi : i < b.size) (hj : j < b.size) :
+    (b.punct.getD j 0 * (b.invPunct.getD j default).operand) % (b.q i).value = if i = j then 1 % (b.q i).value else 0 :=
+  HC.gadget_delta hb hi hj
+
+/-- CRT GADGET: the RNS digits c mod q_j recombine with the gadget elements to c modulo Q -/
+theorem gadget_crt {b : RNSBase} (hb : b.WF) (c : Nat) :
+    (∑ j ∈ range b.size, (c % (b.q j).value) * (b.punct.getD j 0 * (b.invPunct.getD j default).operand)) % b.prod = c % b.prod :=
+  HC.gadget_crt hb c
+
+/-- KEY-SWITCH PHASE (any commutative ring): if every key row satisfies k0_j + k1_j·s = e_j + P·g_j·s' and Σ_j d_j·g_j = c, then the
+    accumulated pair decrypts under s to P·c·s' + Σ_j d_j·e_j -/
+theorem keyswitch_phase {R : Type} [CommRing R] (k : Nat) (d g e k0 k1 : Nat → R) (s s' P c : R)
+    (hkey : ∀ j, j < k → k0 j + k1 j * s = e j + P * g j * s') (hg : ∑ j ∈ range k, d j * g j = c) :
+    (∑ j ∈ range k, d j * k0 j) + (∑ j ∈ range k, d j * k1 j) * s = P * c * s' + ∑ j ∈ range k, d j * e j :=
+  HC.keyswitch_phase k d g e k0 k1 s s' P c hkey hg
+
+/-- MOD-DOWN by the special prime with rounding: X = P·Y + E ⇒ round(X/P) = Y + round(E/P) and |round(E/P)|·P ≤ |E| + P -/
+theorem moddown_round {P : Nat} (hP : 0 < P) (X Y E : Int) (h : X = P * Y + E) :
+    Spec.roundDiv X P = Y + Spec.roundDiv E P ∧ (Spec.roundDiv E P).natAbs * P ≤ E.natAbs + P :=
+  HC.moddown_round hP X Y E h
+
+/-- non-vacuity of the key-switch phase identity in ℤ: one digit, key row (k0,k1) = (7, 3) with s = 2, e = 1, P = 4, g = 1, s' = 3 -/
+example : (7 : Int) + 3 * 2 = 1 + 4 * 1 * 3 := by decide
 
 end HC.C04
